@@ -87,3 +87,18 @@ def register(R, tier="quick"):
                           "empty/long/duplicate keys; varints 0..2^14 and 2^e+-1 up to 2^70; delta, GrowableArray thresholds, "
                           "base85; SortingPool with run sizes 1..1000; compound files with writes crossing the buffer",
                     note="real structures vs Python set/dict/list models; see bounded/structures_bounded.py")
+
+
+    def rfn(tier_, seed):
+        out = run_native("results_bounded.py", [600 if tier_ == "quick" else 12000, seed, 16])
+        for f in out.get("failures", []):
+            f["snippet"] = ("import runpy, sys\nsys.argv = ['results_bounded.py', '--corpus', %r]\n"
+                            "runpy.run_path(%r, run_name='__main__')\n"
+                            % (json.dumps(f["corpus"]), os.path.join(ROOT, "bounded", "results_bounded.py")))
+        return out
+    R.bounded_check("results-bounded@C14", ["C14"], rfn,
+                    bound="random corpora (<= 10 docs, 0-2 segment cuts, 0-2 deletions, sort fields with or without column): "
+                          "sort by numeric/text field asc/desc/limit, FieldFacet reverse, MultiFacet, groupedby (plain, "
+                          "overlapping keyword, under a limit), collapse limit 1/2, filter/mask (incl. empty), every page of "
+                          "pagelen 1..3, len(results) under limits; quick 600 corpora, thorough 12000",
+                    note="real searcher vs list/set models; see bounded/results_bounded.py")
